@@ -13,3 +13,20 @@ package safeprime
 //@   ensures complete: val(x) > 2 && isprime(val(x)) && isprime(val(x) / 2) ==> result
 //@   modifies nothing
 //@   mustfail canary: !result
+
+//@ func GenerateConcurrent
+//@   property C16
+//@   trusted starts goroutines (outside the verified subset); the channels it returns are fresh and nothing the caller can read is changed
+//@   ensures chans: true
+//@   modifies nothing
+
+//@ func Generate
+//@   property C16
+//@   safety
+//@   requires bitsize >= 16 && bitsize <= 65536
+//@   assume common.SmallPrimesProduct != nil && val(common.SmallPrimesProduct) > 0 && forall i in 0..len(common.SmallPrimes) :: common.SmallPrimes[i] >= 3
+//@   ensures safeprime: err == nil && result0 != nil ==> val(result0) > 2 && isprime(val(result0)) && isprime(val(result0) / 2) && fresh(result0)
+//@   ensures fail: err != nil ==> result0 == nil
+//@   modifies nothing
+//@   loop 0 invariant one != nil && two != nil && twoq != nil && twoqone != nil && twoexptwoq != nil && q != nil && bigMod != nil && fresh(one) && fresh(two) && fresh(twoq) && fresh(twoqone) && fresh(twoexptwoq) && fresh(q) && fresh(bigMod) && fresh(bytes) && len(bytes) >= 1 && val(one) == 1 && val(two) == 2
+//@   loop 0 modifies elems(bytes), onlyfresh("BV")
